@@ -21,8 +21,8 @@ META = {
               'patterns, optionally ended by a disconnect packet; keep-alive '
               'ids, teleport ids, coordinates/angles, unknown-frame content '
               'and the segmentation of every socket read are symbolic; one '
-              '120-packet history at a concrete version crosses the '
-              '50-read/300-write batch limits; compression off / on '
+              '55-packet (thorough: 120-packet) history at a concrete version crosses the '
+              '50-read batch limit; coordinates symbolic at protocol 47 (echo), concrete elsewhere; compression off / on '
               '(threshold 256)',
     'outside': 'thread interleavings; histories of several hundred packets '
                'at every version; compression thresholds below the frame '
@@ -96,7 +96,8 @@ def _ids(cx):
             'P': sb.PositionAndLookPacket.get_id(cx)}
 
 
-def play(ctx, pattern, version='sym', compressed=False, sentinel=False):
+def play(ctx, pattern, version='sym', compressed=False, sentinel=False,
+         sym_coords=False):
     """pattern: string over K (keep-alive), P (position and look), U (unknown
     id frame), H (known but unhandled: time update), D (disconnect, last)"""
     import minecraft
@@ -121,11 +122,22 @@ def play(ctx, pattern, version='sym', compressed=False, sentinel=False):
             payload = wire.be(E(k), 8) if long_ids else ('leb', E(k))
             expect.append(('K', payload))
         elif ch == 'P':
-            vals = dict(
-                x=fp.float64(ctx, 'x%d' % i), y=fp.float64(ctx, 'y%d' % i),
-                z=fp.float64(ctx, 'z%d' % i), yaw=fp.float32(ctx, 'yw%d' % i),
-                pitch=fp.float32(ctx, 'pt%d' % i),
-                flags=ctx.int('fl%d' % i, -128, 127))
+            if sym_coords:
+                vals = dict(
+                    x=fp.float64(ctx, 'x%d' % i),
+                    y=fp.float64(ctx, 'y%d' % i),
+                    z=fp.float64(ctx, 'z%d' % i),
+                    yaw=fp.float32(ctx, 'yw%d' % i),
+                    pitch=fp.float32(ctx, 'pt%d' % i),
+                    flags=ctx.int('fl%d' % i, -128, 127))
+            else:
+                # concrete coordinates (the echo of the coordinates only
+                # exists before protocol 107 and is decided with symbolic
+                # values in the ':coords' instances at protocol 47; floating
+                # point terms would push every query of every version class
+                # through the FP solver)
+                vals = dict(x=1.5, y=-64.25, z=3e7, yaw=370.5, pitch=-12.0,
+                            flags=ctx.int('fl%d' % i, -128, 127))
             tid = ctx.int('tp%d' % i, 0, (1 << 32) - 1)
             pkt = cb.PlayerPositionAndLookPacket(teleport_id=tid,
                                                  dismount_vehicle=False,
@@ -191,7 +203,8 @@ def play(ctx, pattern, version='sym', compressed=False, sentinel=False):
             conds.append(items_eq(rest, payload))
     # ---- listeners saw every packet, unknown ids as generic packets
     from minecraft.networking.packets import Packet
-    seen_play = seen[1:]            # [0] is login success
+    # [0] is login success (preceded by set-compression when compressing)
+    seen_play = seen[2:] if compressed else seen[1:]
     conds.append(z3.BoolVal(len(seen_play) == len(pattern)))
     for ch, p in zip(pattern, seen_play):
         if ch == 'U':
@@ -222,9 +235,10 @@ def play(ctx, pattern, version='sym', compressed=False, sentinel=False):
 
 def instances(tier, seed):
     out = []
-    pats = ['K', 'P', 'KK', 'KPK', 'UKH', 'PUK', 'KD', 'UD', 'D']
+    pats = ['K', 'P', 'KPK', 'UKH', 'KD', 'UD']
     if tier == 'thorough':
-        pats += ['KKKK', 'KPUH', 'HUPK', 'PKPD', 'UUKD', 'HHKK']
+        pats += ['KK', 'PUK', 'D', 'KKKK', 'KPUH', 'HUPK', 'PKPD', 'UUKD',
+                 'HHKK']
     for p in pats:
         out.append(Instance('play:%s' % p, 'play', {'pattern': p}, W=96,
                             budget_s=3000, witness_every=5,
@@ -237,8 +251,13 @@ def instances(tier, seed):
                         {'pattern': 'KPK', 'compressed': True,
                          'version': 47}, W=96, budget_s=1800,
                         max_decisions=200000))
-    long_pat = ('K' * 59 + 'P') * 2
-    out.append(Instance('play:long120', 'play',
+    out.append(Instance('play:PK:47:coords', 'play',
+                        {'pattern': 'PK', 'version': 47,
+                         'sym_coords': True}, W=96, budget_s=1800,
+                        max_decisions=200000))
+    long_pat = ('K' * 59 + 'P') * 2 if tier == 'thorough' else \
+        'K' * 54 + 'P'
+    out.append(Instance('play:long%d' % len(long_pat), 'play',
                         {'pattern': long_pat, 'version': 757}, W=96,
                         budget_s=3000, max_decisions=400000))
     out.append(Instance('sentinel:play', 'play',
